@@ -22,7 +22,7 @@ type c04Setup struct {
 	cleanup func()
 }
 
-func c04Prepare(caseID int, idx int, behaviour, proto, launch string, managed, preKill bool) *c04Setup {
+func c04Prepare(caseID int, idx int, behaviour, proto, launch string, managed, preKill, preCleanup bool) *c04Setup {
 	s := &c04Setup{}
 	s.obs.Behaviour, s.obs.PreKill = behaviour, preKill
 	wire := proto
@@ -75,6 +75,9 @@ func c04Prepare(caseID int, idx int, behaviour, proto, launch string, managed, p
 	s.killer = l.Client
 	if preKill {
 		within(20*time.Second, l.Client.Kill)
+	}
+	if preCleanup {
+		within(20*time.Second, plugin.CleanupClients)
 	}
 	_, err := l.Client.Start()
 	if behaviour == "failed-handshake" || behaviour == "start-timeout-partial-line" {
@@ -180,7 +183,7 @@ func TestC04(t *testing.T) {
 		if p.Pattern == "cleanup" {
 			var ss []*c04Setup
 			for i, b := range p.Behaviours {
-				ss = append(ss, c04Prepare(c.ID, i, b, p.Proto, p.Launch, true, i < len(p.PreKill) && p.PreKill[i]))
+				ss = append(ss, c04Prepare(c.ID, i, b, p.Proto, p.Launch, true, i < len(p.PreKill) && p.PreKill[i], p.PreCleanup && i == 0))
 			}
 			H := 20 * time.Second
 			for _, b := range p.Behaviours {
@@ -189,7 +192,21 @@ func TestC04(t *testing.T) {
 				}
 			}
 			e.Call("h", "CleanupClients", nil)
+			var second sync.WaitGroup
+			if p.DoubleCleanup {
+				second.Add(1)
+				go func() {
+					defer second.Done()
+					time.Sleep(150 * time.Millisecond)
+					if ok2, _, _ := within(H, plugin.CleanupClients); ok2 {
+						for _, s := range ss {
+							o.SecondReturnStates = append(o.SecondReturnStates, procState(s.obs.Pid))
+						}
+					}
+				}()
+			}
 			ok, el, dump := within(H, plugin.CleanupClients)
+			second.Wait()
 			o.KilledFlag = atomic.LoadUint32(&plugin.Killed)
 			for _, s := range ss {
 				s.obs.KillReturned, s.obs.KillMs = ok, el.Milliseconds()
@@ -202,7 +219,7 @@ func TestC04(t *testing.T) {
 			e.Ret("h", "CleanupClients", o)
 			return
 		}
-		s := c04Prepare(c.ID, 0, p.Behaviour, p.Proto, p.Launch, false, false)
+		s := c04Prepare(c.ID, 0, p.Behaviour, p.Proto, p.Launch, false, false, false)
 		if s.obs.SetupErr != "" {
 			s.l.hardKill()
 			o.Clients = []spec.C04Client{s.obs}
